@@ -266,8 +266,12 @@ def images_chunk(args):
     for k in range(k0, k1):
         rnd = random.Random('%s/img/%s' % (seed, k))
         anim = rnd.random() < 0.3
-        iw = ImageWriter({'PNGEnableAnimation': 1 if anim else 0})
-        palette = dict(iw.get_default_colours()) if False else None
+        # transparency: the frame's alpha (-1 = not given: the writer's PNGAlpha, 255 unless configured) is the alpha of
+        # every pixel the mask makes transparent; every other pixel is opaque
+        png_alpha = rnd.choice((None, None, 0, 1, 100, 255))
+        f_alpha = rnd.choice((-1, -1, 0, 0, 1, 128, 254, 255))
+        iw = ImageWriter(dict({'PNGEnableAnimation': 1 if anim else 0}, **({} if png_alpha is None else {'PNGAlpha': png_alpha})))
+        exp_alpha = f_alpha if f_alpha >= 0 else (255 if png_alpha is None else png_alpha)
         cw = rnd.randrange(1, 5)
         ch = rnd.randrange(1, 4)
         scale = rnd.randrange(1, 5)
@@ -289,9 +293,9 @@ def images_chunk(args):
             y = rnd.randrange(FH)
             w = rnd.randrange(1, FW - x + 1)
             h = rnd.randrange(1, FH - y + 1)
-        fr = Frame(udgs, scale, mask, x, y, w, h)
+        fr = Frame(udgs, scale, mask, x, y, w, h, alpha=f_alpha)
         f = io.BytesIO()
-        desc = dict(cw=cw, ch=ch, scale=scale, mask=mask, x=x, y=y, w=w, h=h, attrs=attrs, anim=anim)
+        desc = dict(cw=cw, ch=ch, scale=scale, mask=mask, x=x, y=y, w=w, h=h, attrs=attrs, anim=anim, alpha=f_alpha, PNGAlpha=png_alpha)
         try:
             iw.write_image([fr], f)
             W_, H_, frames = decode_png(f.getvalue())
@@ -306,7 +310,8 @@ def images_chunk(args):
 
         def rgbrows(rows):
             return [[tuple(colours[0] if c is None else colours[c]) for c in row] for row in rows]
-        exp = rgbrows(render(udgs, scale, mask, x, y, w, h, iw))
+        exp_idx = render(udgs, scale, mask, x, y, w, h, iw)
+        exp = rgbrows(exp_idx)
         got = [[tuple(px[0]) for px in row] for row in frames[0][1]]
         if (W_, H_) != (w, h):
             bad.append(('size %s != %s' % ((W_, H_), (w, h)), desc))
@@ -315,6 +320,13 @@ def images_chunk(args):
             yy = next(i for i in range(h) if got[i] != exp[i])
             xx = next(i for i in range(w) if got[yy][i] != exp[yy][i])
             bad.append(('pixel (%d,%d) is %s, display rules give %s' % (xx, yy, got[yy][xx], exp[yy][xx]), desc))
+            continue
+        got_a = [[px[1] for px in row] for row in frames[0][1]]
+        exp_a = [[exp_alpha if c is None else 255 for c in row] for row in exp_idx]
+        if got_a != exp_a:
+            yy = next(i for i in range(h) if got_a[i] != exp_a[i])
+            xx = next(i for i in range(w) if got_a[yy][i] != exp_a[yy][i])
+            bad.append(('pixel (%d,%d) has alpha %s, the mask and the alpha parameter (frame %s, PNGAlpha %s) give %s' % (xx, yy, got_a[yy][xx], f_alpha, png_alpha, exp_a[yy][xx]), desc))
             continue
         if len(frames) > 1:
             (fx, fy, fw, fh), rows2 = frames[1]
